@@ -12,6 +12,12 @@ type MyInt int
 type MyInt8 int8
 type MyU16 uint16
 type MyU64 uint64
+type MyI16 int16
+type MyI32 int32
+type MyI64 int64
+type MyU8 uint8
+type MyU32 uint32
+type MyUint uint
 type MyStr string
 type MyBool bool
 type MyF64 float64
@@ -78,7 +84,7 @@ func regStatic(v interface{}) {
 }
 
 func init() {
-	for _, v := range []interface{}{MyInt(0), MyInt8(0), MyU16(0), MyU64(0), MyStr(""), MyBool(false),
+	for _, v := range []interface{}{MyI16(0), MyI32(0), MyI64(0), MyU8(0), MyU32(0), MyUint(0), MyInt(0), MyInt8(0), MyU16(0), MyU64(0), MyStr(""), MyBool(false),
 		MyF64(0), MyF32(0), MyBytes(nil), MyTime{}, MyStrs(nil), MyInts(nil), MyMap(nil),
 		Rec{}, MutA{}, MutB{}, RecMap{}, Inner{}, Outer{}, Inner2{}} {
 		regStatic(v)
